@@ -510,6 +510,7 @@ let rec exec (toks : string list) (side : string list) (impl_result : string) : 
   | ["sv32"; "dec"; h] -> let i = bytes_of_string (string_of_hex h) in codec_res (fun v -> Z.to_string (to_z v)) i (M.dec_sv32 i)
   | ["f64"; "enc"; x] -> hex_of_string (string_of_bytes (M.enc_f64le (f64_of_hex x)))
   | ["f64"; "dec"; h] -> let i = bytes_of_string (string_of_hex h) in codec_res xstr i (M.dec_f64le i)
+  | ["f64"; "decbits"; h] -> let i = bytes_of_string (string_of_hex h) in codec_res (fun v -> "b" ^ hex_of_string (string_of_bytes (M.enc_f64le v))) i (M.dec_f64le i)
   | ["vf"; "enc"; x] -> hex_of_string (string_of_bytes (M.enc_vf (f64_of_hex x)))
   | ["vf"; "dec"; h] -> let i = bytes_of_string (string_of_hex h) in codec_res xstr i (M.dec_vf i)
   | ["vf"; "size"; x] -> string_of_int (int_of_nat (M.vf_size (f64_of_hex x)))
